@@ -142,6 +142,18 @@ pub fn battery(t: &Tree, order: &[usize]) -> Vec<(String, String)> {
                 r2s(t.khuner_felsenstein(&me).map(|v| v.to_bits())),
             )
         })),
+        // bit sets that come from ANOTHER tree on the same taxa, read as names by this tree (the view helper is a leaf-index
+        // query like any other: whichever query comes first fills the index)
+        ("partition_view", Box::new(|| {
+            if dup_leaves || leaf_names.len() < 4 || leaf_names.iter().any(|n| n == "<unnamed>") {
+                return "-".into();
+            }
+            let r = reference_caterpillar(&leaf_names);
+            let Ok(parts) = r.get_partitions() else { return "reference-failed".into() };
+            let mut v: Vec<String> = parts.iter().map(|p| r2s(t.partition_to_leaves(p))).collect();
+            v.sort();
+            v.join(" ; ")
+        })),
         ("newick", Box::new(|| r2s(t.to_newick()))),
         ("nexus", Box::new(|| {
             // TAXLABELS follows arena order, which the documentation does not promise: compared as a multiset
@@ -258,6 +270,17 @@ fn history(start: &str, nops: usize, rng: &mut Rng, rep: &mut Report, batch: &mu
         let b_again = battery(&st.tree, &o2);
         if let Some((q, a, b)) = diff(&b_edit, &b_again) {
             rep.oracle("repeatable", &q, &format!("{}\nbattery\t{q}", case.script()), &format!("first: {a}\nlater: {b}"));
+        }
+        // a COPY of the edited object (`Tree::clone`) is the same tree: same answers, and removed slots stay removed in it
+        let copy = st.tree.clone();
+        let b_copy = battery(&copy, &[]);
+        if let Some((q, a, b)) = diff(&b_edit, &b_copy) {
+            rep.oracle("copy", &q, &format!("{}\nbattery\t{q}", case.script()), &format!("object: {a}\ncopy  : {b}"));
+        }
+        for (i, s) in slots.iter().enumerate() {
+            if s.deleted && copy.get(&i).is_ok() {
+                rep.oracle("removed-observable", "get-on-a-copy", &case.script(), &format!("get({i}) succeeded on tree.clone()"));
+            }
         }
         // removed nodes are never observable
         for (i, s) in slots.iter().enumerate() {
